@@ -11,6 +11,7 @@ import PygProofs.Lemmas.WrapLemmas
 import PygProofs.Lemmas.CacheLemmas
 import PygProofs.Lemmas.CacheKeyLemmas
 import PygModel.WrapHist
+import PygProofs.Lemmas.WrapHistSharp
 import PygModel.Try
 import PygProofs.Lemmas.WrapHistLemmas
 
@@ -1212,5 +1213,97 @@ example :
     (mk .tryValue [("value", .cell (.int 1))] (mk .tryValue q f)).chain = [(.tryValue, [("repeat", .cell (.int 3)), ("value", .cell (.int 1))])] := by
   decide
 
+
+
+/-! ## round h6: histories through a stack, each exclusion only for the decorator that causes it -/
+
+/-- the hypotheses on one call of a history, relative to the classes `K` of the stack: a valid call of a non-raising `f` -
+undeclared keywords excluded only when `kwargs_support ∈ K`, a keyword `axis` only when `loops ∈ K`, an int ndarray only when
+`pd2np ∈ K` (`ValidFor`) -, hashable for the cache layer -/
+def HistCallFor (K : List Cls) (s : Sig) (body : PDict → Res Val) (unh : Call → Bool) (above : List (Cls × PDict))
+    (c : Call) : Prop :=
+  (∃ v, ValidFor K s body c v) ∧ unh (reach s above c) = false ∧ Call.ok (reach s above c)
+
+/-- the unconditional hypotheses of `stack_cache_history` imply these, for every stack -/
+theorem HistCall.toFor {s body unh above c} (h : HistCall s body unh above c) (K : List Cls) :
+    HistCallFor K s body unh above c :=
+  ⟨h.1.imp fun _ hv => hv.toFor K, h.2⟩
+
+/-- **`stack_cache_history` with the hypotheses of `stack_transparent_sharp`**: the same statement for calls that are valid
+for the classes that ARE in the stack - `try_value(cache(f))` for `f(a, **kw)` called with extra keywords, `cache(f)` with a
+parameter called `axis` passed by keyword, `try_back(cache(f))` on an int ndarray ... (hashable for the cache layer:
+`unh (reach …) = false`).  Implies `stack_cache_history` (`HistCall.toFor`). -/
+theorem stack_cache_history_sharp (s : Sig) (body : PDict → Res Val) (unh : Call → Bool) (p : PDict)
+    (above below : List (Cls × PDict)) (ha : noCache above) (hb : noCache below)
+    (pre : List Call) (c : Call)
+    (hpre : ∀ x ∈ pre, HistCallFor (classes (above ++ (Cls.cache, p) :: below)) s body unh above x)
+    (hc : HistCallFor (classes (above ++ (Cls.cache, p) :: below)) s body unh above c) :
+    let chain := above ++ (Cls.cache, p) :: below
+    let seen := reach s above
+    let r := runH s body unh chain {} pre
+    let r' := runH s body unh chain {} (pre ++ [c])
+    r'.2 = r.2 ++ [r'.2.getLast?.getD (applyFn s body c)] ∧
+    ((∀ x ∈ pre, ¬ sameComb (seen x) (seen c)) →
+      r'.1.evals.length = r.1.evals.length + 1 ∧ r'.2.getLast? = some (applyFn s body c)) ∧
+    ((∃ x ∈ pre, sameComb (seen x) (seen c)) →
+      r'.1.evals.length = r.1.evals.length ∧
+      ∃ pre1 c0 pre2, pre = pre1 ++ c0 :: pre2 ∧ sameComb (seen c0) (seen c) ∧
+        (∀ x ∈ pre1, ¬ sameComb (seen x) (seen c)) ∧ r'.2.getLast? = some (applyFn s body c0)) := by
+  intro chain seen r r'
+  have hKa : Within (classes (above ++ (Cls.cache, p) :: below)) above :=
+    fun w hw => within_classes _ w (by simp [hw])
+  have hKb : Within (classes (above ++ (Cls.cache, p) :: below)) below :=
+    fun w hw => within_classes _ w (by simp [hw])
+  have hv : ∀ x ∈ pre, (∃ v, ValidFor (classes (above ++ (Cls.cache, p) :: below)) s body x v) ∧
+      unh (reach s above x) = false :=
+    fun x hx => ⟨(hpre x hx).1, (hpre x hx).2.1⟩
+  have hv' : ∀ x ∈ pre ++ [c], (∃ v, ValidFor (classes (above ++ (Cls.cache, p) :: below)) s body x v) ∧
+      unh (reach s above x) = false := by
+    intro x hx
+    rcases List.mem_append.1 hx with hx | hx
+    · exact hv x hx
+    · simp only [List.mem_singleton] at hx; subst hx; exact ⟨hc.1, hc.2.1⟩
+  obtain ⟨_, hr2, hr3⟩ := runH_refines_for _ s body unh p above below ha hb hKa hKb pre {} {} rfl hv
+  obtain ⟨_, hr2', hr3'⟩ := runH_refines_for _ s body unh p above below ha hb hKa hKb (pre ++ [c]) {} {} rfl hv'
+  rw [List.map_append, List.map_cons, List.map_nil] at hr2' hr3'
+  simp only [List.length_nil, Nat.add_zero, Nat.zero_add] at hr3 hr3'
+  have hres : ∀ x, (∃ v, ValidFor (classes (above ++ (Cls.cache, p) :: below)) s body x v) →
+      Except.ok (resultOf s body (seen x)) = applyFn s body x := by
+    rintro x ⟨v, h⟩
+    rw [(ValidFor.reach above hKa h).resultOf_eq, h.ok]
+  obtain ⟨h1, h2, h3⟩ := cache_once_per_combination (resultOf s body) (pre.map seen) (seen c)
+    (by intro y hy; obtain ⟨x, hx, rfl⟩ := List.mem_map.1 hy; exact (hpre x hx).2.2) hc.2.2
+  have e2 : r.2 = (runCache (fun c => Except.ok (resultOf s body c)) {} (List.map seen pre)).2 := hr2
+  have e2' : r'.2 = (runCache (fun c => Except.ok (resultOf s body c)) {} (List.map seen pre ++ [seen c])).2 := hr2'
+  have e3 : r.1.evals.length =
+      (runCache (fun c => Except.ok (resultOf s body c)) {} (List.map seen pre)).1.evals.length := hr3
+  have e3' : r'.1.evals.length =
+      (runCache (fun c => Except.ok (resultOf s body c)) {} (List.map seen pre ++ [seen c])).1.evals.length := hr3'
+  refine ⟨?_, fun hno => ?_, fun hex => ?_⟩
+  · rw [e2', e2, ← hres c hc.1]; exact h1
+  · have := h2 (by
+      intro y hy; obtain ⟨x, hx, rfl⟩ := List.mem_map.1 hy; exact hno x hx)
+    rw [e3', e3, e2', ← hres c hc.1]; exact this
+  · obtain ⟨x, hx, hs⟩ := hex
+    obtain ⟨hl, p1, c0', p2, hsplit, hs0, hbefore, hlast⟩ := h3 ⟨seen x, List.mem_map.2 ⟨x, hx, rfl⟩, hs⟩
+    obtain ⟨l1, l2, hpre12, hm1, hm2⟩ := List.map_eq_append_iff.1 hsplit
+    obtain ⟨c0, l2', hl2, hc0, hm2'⟩ := List.map_eq_cons_iff.1 hm2
+    subst hl2 hc0 hm1
+    refine ⟨by rw [e3', e3]; exact hl, l1, c0, l2', hpre12, hs0,
+      fun y hy => hbefore (seen y) (List.mem_map.2 ⟨y, hy, rfl⟩), ?_⟩
+    rw [e2', ← hres c0 ((hpre c0 (by rw [hpre12]; simp)).1)]; exact hlast
+
+/-- non-vacuity: `try_value(cache(f))` for `f(a, axis=0, **kw)` called with the keyword `axis` AND an extra keyword AND an int
+ndarray - outside `HistCall` (all three exclusions), inside `HistCallFor` for this stack -/
+example :
+    let s : Sig := { params := ["a", "axis"], defaults := [.cell (.int 0)], varargs := none, varkw := some "kw" }
+    let c : Call := { args := [.cell (.int 1)], kw := [("axis", .cell (.int 5)), ("zz", .cell (.int 9))] }
+    HistCallFor (classes ([(Cls.tryValue, [])] ++ (Cls.cache, []) :: [])) s recBody (fun _ => false) [(Cls.tryValue, [])] c ∧
+    ¬ (∀ p ∈ c.kw, p.1 ≠ "axis") := by
+  refine ⟨⟨⟨_, ⟨fun h => ?_, fun h => ?_, fun h => ?_, rfl⟩⟩, rfl, ?_⟩, by decide⟩
+  · revert h; decide
+  · revert h; decide
+  · revert h; decide
+  · exact ⟨by decide +kernel, by decide +kernel, by decide +kernel⟩
 
 end Pyg.Props.C18
